@@ -1,0 +1,8 @@
+//go:build !verif
+// +build !verif
+
+package transport
+
+// verifC12BeforeCount is a verification hook point in recv between conn.Read having returned a request and handleConn's
+// numInvoke++; without the build tag verif it is an empty function that the compiler inlines away.
+func verifC12BeforeCount(*connInfo) {}
